@@ -203,6 +203,9 @@ type C07Case struct {
 	Generated bool `json:"generated,omitempty"`
 	// Levels: shape 4 with a second two-input converter on top (2), else 0
 	Levels int `json:"levels,omitempty"`
+	// MultiOut: shape 3 whose last converter returns one named result per
+	// parameter
+	MultiOut bool `json:"multiOut,omitempty"`
 }
 
 // traceToInput follows a value back through single-input converter
@@ -266,6 +269,9 @@ func evalC07(c *engine.Case) engine.Verdict {
 	}
 	if x.Generated {
 		v.Class("producer-emitted-by-a-generator")
+	}
+	if x.MultiOut {
+		v.Class("one-converter-returns-a-named-result-per-parameter")
 	}
 	for _, in := range sc.Inputs {
 		if in.Tok == x.NameInput && in.L.Sub != "" {
@@ -579,6 +585,20 @@ func genC07(g engine.G) *engine.Case {
 			x.FirstConv = id
 		}
 		convs = append(convs, fs)
+	}
+	if x.Shape == 3 && g.Pct(35) {
+		// the LAST converter of the chain returns one NAMED result per
+		// parameter (a result struct): it is executed once per parameter, and
+		// every parameter must get the result of the execution that converted
+		// the supplied value of ITS name -- not what another execution left
+		// under the same label
+		last := &convs[len(convs)-1]
+		last.Out = nil
+		for _, o := range rapidPerm(g, append([]string{n}, extraParams...)) {
+			last.Out = append(last.Out, engine.Label{Name: o, Type: t1, Dyn: t1})
+		}
+		last.OutForm = engine.Pick(g, []string{engine.FormStruct, engine.FormPtr})
+		x.MultiOut = true
 	}
 	if x.Shape == 2 {
 		id++
